@@ -6,7 +6,8 @@
 //              trailing garbage, swap of two chunk bodies;
 //   structural (header re-emitted and re-sealed) declared stored/uncompressed length +-k or a
 //              boundary value, digest bytes, chunk count, data digest, flags, compression type,
-//              index entries swapped/dropped/duplicated, integer encodings; optionally the data
+//              index entries swapped/dropped/duplicated, integer encodings, file identifier switched to the
+//              detached-header one with the body left in place; optionally the data
 //              checksum is recomputed too, so that only the per-chunk checks stand in the way
 // -> a cyclic list of read buffer sizes.
 // Oracle: open / read to end of stream / close through the library.  If ALL calls report success,
@@ -32,7 +33,7 @@ static std::string structural(Ctx &c, const gen::ZFile &z, Bytes &out, bool keep
     size_t nm = 1 + c.draw(1);
     for (size_t m = 0; m < nm; m++) {
         size_t i = c.pick(n); ref::Entry &e = h.entries[i];
-        switch (c.draw(11)) {
+        switch (c.draw(12)) {
         case 0: { int64_t k = (int64_t)c.draw(200) - 100; if (k >= 0) k++; e.len = (uint64_t)((int64_t)e.len + k); d += "e" + std::to_string(i) + ".len+=" + std::to_string(k) + "; "; break; }
         case 1: { int64_t k = (int64_t)c.draw(20) - 10; if (k >= 0) k++; e.comp_len = (uint64_t)((int64_t)e.comp_len + k); d += "e" + std::to_string(i) + ".comp_len+=" + std::to_string(k) + "; "; break; }
         case 2: { e.len = (uint64_t)gen::boundary_value(c) & ((1ull << 27) - 1); d += "e" + std::to_string(i) + ".len:=" + std::to_string(e.len) + "; "; break; }
@@ -47,6 +48,7 @@ static std::string structural(Ctx &c, const gen::ZFile &z, Bytes &out, bool keep
         case 10: { size_t n0 = z.h.entries.size(); if (n0 < 3 || body.size() != z.file.size() - z.h.total_size) break; size_t a = 1 + c.pick(n0 - 1), b = 1 + c.pick(n0 - 1); if (a == b) break;   // swap two chunk BODIES (and nothing else)
                    std::vector<Bytes> st; size_t off = 0; for (auto &x : z.h.entries) { st.push_back(Bytes(body.begin() + off, body.begin() + off + x.comp_len)); off += x.comp_len; }
                    std::swap(st[a], st[b]); body.clear(); for (auto &x : st) body.insert(body.end(), x.begin(), x.end()); d += "chunk bodies " + std::to_string(a) + "," + std::to_string(b) + " swapped; "; break; }
+        case 12: { h.detached = !h.detached; d += "file identifier switched to the detached-header one (ZHR1) with the body left in place; "; break; }   // the header checksum is defined over ZCK1, so it stays valid
         default: { eo.pad_lens = 1 + c.draw(9); d += "entry lengths encoded in " + std::to_string(eo.pad_lens) + " bytes; "; break; }
         }
     }
@@ -64,7 +66,8 @@ static void prop(Ctx &c) {
     // a reader that pins the authentic header digest (as package managers do) must be at least as strict
     bool pinned = c.rarely(3); lib::Pins pins; if (pinned) { pins.type = (int)z.h.hash_type; pins.digest_hex = lib::hex_of(z.h.header_digest); if (c.boolean()) pins.length = (long)z.h.total_size; }
     if (structural_mut) md = structural(c, z, m, pinned && c.chance(2, 3));
-    else { m = z.file; size_t nm = 1 + c.draw(1); for (size_t i = 0; i < nm; i++) md += gen::mutate_raw(c, m, z.h.total_size) + "; "; if (c.rarely(4)) { ref::reseal(m); md += "(header re-sealed) "; } }
+    else { m = z.file; size_t nm = 1 + c.draw(1); for (size_t i = 0; i < nm; i++) md += gen::mutate_raw(c, m, z.h.total_size) + "; "; if (c.rarely(4)) { ref::reseal(m); md += "(header re-sealed) "; }
+           if (c.gver >= 2 && c.rarely(6) && m.size() >= 5 && memcmp(m.data(), "\0ZCK1", 5) == 0) { memcpy(m.data(), "\0ZHR1", 5); md += "file identifier switched to ZHR1; "; } }
     std::vector<size_t> rs = gen::rhistory(c);
     c.desc << z.desc << " alterations{" << md << "} reads=" << gen::sizes_str(rs) << (pinned ? " PINNED-OPEN" : "");
     if (m == z.file) { c.label("unchanged"); }
@@ -77,8 +80,13 @@ static void prop(Ctx &c) {
     lib::RResult rr = lib::read_file(m, rs, (size_t)64 << 20, pinned ? &pins : nullptr);
     if (rr.open_ok && m != z.file) c.nontrivial(pbt::fnv1a(m.data(), m.size()));
     c.label(rr.all_ok() ? "lib-success" : !rr.open_ok ? "lib-open-fails" : !rr.read_ok ? "lib-read-fails" : "lib-close-fails");
+    // A file that carries the detached-header identifier but still has its body: the specification gives such a file no content
+    // (the reference rejects it), the library reads it like a full file.  Either reading is acceptable here, so the content the
+    // reference obtains with the identifier read as ZCK1 is allowed besides the original content.
+    bool alt_ok = false; Bytes alt_content;
+    if (!R && pr.h.checksum_ok && pr.h.detached && m.size() >= 5) { Bytes alt = m; memcpy(alt.data(), "\0ZCK1", 5); ref::ParseResult p2 = ref::parse(alt); if (p2.ok) { ref::Decoded d2 = ref::decode(alt, p2.h); if (d2.ok) { alt_ok = true; alt_content = d2.content; c.label("detached-id-with-body"); } } }
     if (rr.all_ok()) {
-        const Bytes &want = R ? dec.content : z.D;
+        const Bytes &want = R ? dec.content : (alt_ok && rr.data == alt_content) ? alt_content : z.D;
         if (rr.data != want) {
             size_t i = 0; while (i < rr.data.size() && i < want.size() && rr.data[i] == want[i]) i++;
             c.fail(R ? "differs-from-reference" : "success-on-rejected-file",
@@ -94,7 +102,7 @@ static void prop(Ctx &c) {
         Bytes out; int ec = -1; std::string e = run_unzck(std::string(bdir) + "/asan/tools/", m, out, &ec);
         c.label(ec == 0 ? "unzck-exit0" : "unzck-fails");
         if (!e.empty()) { c.label("unzck-abnormal-termination(C03's business)"); ec = -1; }
-        if (ec == 0) { const Bytes &want = R ? dec.content : z.D;
+        if (ec == 0) { const Bytes &want = R ? dec.content : (alt_ok && out == alt_content) ? alt_content : z.D;
             if (out != want) c.fail(R ? "unzck-differs-from-reference" : "unzck-success-on-rejected-file", "unzck exited 0 and wrote " + std::to_string(out.size()) + " bytes, expected " + std::to_string(want.size()) + (R ? " (reference decoding)" : " (original content; the reference rejects the file: " + (pr.ok ? dec.reason : pr.reason) + ")")); }
     }
 }
